@@ -326,6 +326,8 @@ var c09fNearMisses = []string{
 	"filetype a;\nreturn ()\n",
 	"filetype a;\nretain ()\n",
 	"Filetype a;\n",
+	// bytes >= 0x80 between tokens: Unicode white space is skipped, anything else is INVALID
+	"filetype\xc2\xa0a;\n", "\xe2\x80\xa8filetype a;\xe3\x80\x80\n", "filetype a\xe2\x80\x8b;\n", "filetype a;\xff\n", "\xef\xbb\xbffiletype a;\n", "filetype a\xc3\xa9;\n",
 }
 
 func c09File(c0 *Ctx) {
